@@ -511,6 +511,16 @@ pub fn family(kind: &str, n: usize) -> Option<Vec<u8>> {
                 tok(&mut b, 0x21, format!("a{}", i).as_bytes(), &[0, 0, 0, 1]);
             }
         }
+        // one group with n attributes, then n empty groups (what one group needed must not be provisioned for every
+        // later one)
+        "widegroupthenmany" => {
+            for i in 0..n {
+                tok(&mut b, 0x21, format!("a{}", i).as_bytes(), &[0, 0, 0, 1]);
+            }
+            for i in 0..n {
+                b.push([2u8, 4, 5, 1][i % 4]);
+            }
+        }
         // n groups, each opening a collection it never closes (malformed): what is left open must not be walked again
         // at every later delimiter
         "opengroups" => {
@@ -554,5 +564,5 @@ pub fn family(kind: &str, n: usize) -> Option<Vec<u8>> {
 
 pub const FAMILIES: &[(&str, usize)] = &[
     ("depth", 16), ("width", 9), ("attrs", 11), ("dupattrs", 10), ("groups", 1), ("members", 15),
-    ("unclosed", 5), ("ends", 5), ("bigvalues", 1), ("collset", 21), ("deepsets", 25), ("badnames", 1), ("badtext", 1), ("longfirst", 9), ("widethenmany", 20), ("opengroups", 23),
+    ("unclosed", 5), ("ends", 5), ("bigvalues", 1), ("collset", 21), ("deepsets", 25), ("badnames", 1), ("badtext", 1), ("longfirst", 9), ("widethenmany", 20), ("opengroups", 23), ("widegroupthenmany", 13),
 ];
